@@ -213,7 +213,7 @@ class FormattedValue(ExpressionPrinter):
         self.printer.append(str(Str(node.s, self.allowed_quotes, self.pep701)), TokenTypes.NonNumberLiteral)
 
     def visit_Bytes(self, node):
-        self.printer.append(str(Bytes(node.s, self.allowed_quotes)), TokenTypes.NonNumberLiteral)
+        self.printer.append(str(Bytes(node.s, self.allowed_quotes, self.pep701)), TokenTypes.NonNumberLiteral)
 
     def visit_JoinedStr(self, node):
         assert isinstance(node, ast.JoinedStr)
@@ -302,6 +302,10 @@ class Str(object):
         if self._s == '':
             return str(min(self.allowed_quotes, key=len)) * 2
 
+        if '\0' in self._s and self.pep701:
+            # Backslash escapes are allowed, so there is a literal for a string containing a null character
+            return repr(self._s)
+
         if '\0' in self._s or ('\\' in self._s and not self.pep701):
             raise ValueError('Impossible to represent a character in f-string expression part')
 
@@ -371,10 +375,11 @@ class Bytes(object):
 
     """
 
-    def __init__(self, b, allowed_quotes):
+    def __init__(self, b, allowed_quotes, pep701=False):
         self._b = b
         self.allowed_quotes = allowed_quotes
         self.current_quote = None
+        self.pep701 = pep701
 
     def _can_quote(self, c):
         if self.current_quote is None:
@@ -420,6 +425,10 @@ class Bytes(object):
     def __str__(self):
         if self._b == b'':
             return 'b' + str(min(self.allowed_quotes, key=len)) * 2
+
+        if self.pep701:
+            # Any quote and backslash escapes may be used, so every bytes value has a literal
+            return repr(self._b)
 
         if b'\0' in self._b or b'\\' in self._b:
             raise ValueError('Impossible to represent a %r character in f-string expression part')
